@@ -269,7 +269,7 @@ def check_stake(ctx, it):
                         x = c[0]
                         if x[0] == "may_load" and x[1] == MEM and x[2] == e.key and c[1] == "Ok" and x[3] == e.ver:
                             old = ("vfield", x, "Ok", "0")
-                    d = cell_delta(t)
+                    d = cell_delta(t, path=p)
                     if old is None:
                         prob = "previous weight of %s not read before the write" % show(e.key)[:80]
                     elif d.nf is None:
@@ -278,7 +278,15 @@ def check_stake(ctx, it):
                         want = NF()
                         if e.op == "save":
                             want.merge(nf(e.value), 1)
-                        want.add_atom(("orzero", old), -1)
+                        want.merge(previous_or_zero(p, old), -1)
+                        # the total may spell "previous or 0" symbolically where the path decided it: bring both to one form
+                        dn = NF()
+                        dn.merge(d.nf, 1)
+                        oz = ("orzero", old)
+                        if oz in dn.atoms and previous_or_zero(p, old).atoms != {oz: 1}:
+                            k_ = dn.atoms.pop(oz)
+                            dn.merge(previous_or_zero(p, old), k_)
+                        d.nf = dn
                         if d.nf.inexact:
                             prob = "inexact arithmetic on TOTAL: %s" % d.nf.inexact
                         elif not (d.nf == want):
